@@ -38,12 +38,12 @@ def _guard_cases(ctx, lines):
     if len(hs) > 1:
         e = e[:hs[1]]
 
-    def mk(name, i, f):
+    def mk(name, i, f, cls=None):
         m = copy.deepcopy(e)
         f(m[i])
         p = os.path.join(ctx.work, "guard-%s.ndjson" % name)
         lib.write_ndjson(p, m)
-        cases.append((name, p, i + 1))
+        cases.append((name, p, i + 1, cls))
 
     def first(pred):
         for i, r in enumerate(e):
@@ -78,6 +78,14 @@ def _guard_cases(ctx, lines):
             mk("output-voxel-1pc", k, lambda x, q=q: x["fx"].__setitem__(q, int(x["fx"][q] * 1.01)))
     if len(done) < 2:
         raise lib.ModelFailure("vacuity guards: the recorded history contains no suitable events (%s)" % sorted(done))
+    # a deviation of the on-the-fly group call other than the known finding (one bin of the window keeps its old value)
+    e = [json.loads(l) for l in lines]
+    for k, r in enumerate(e):
+        if r["e"] == "OtfGroup":
+            ch = [n for n in range(len(r["y"])) if r["fx"][n] != r["y"][n] * 65536 and r["y"][n] != 0]
+            if ch:
+                mk("on-the-fly-group-bin-kept", k, lambda x, n=ch[0]: x["fx"].__setitem__(n, x["y"][n] * 65536), "on-the-fly-group")
+                break
     return cases
 
 
@@ -144,7 +152,7 @@ def run(ctx):
         allres = list(ex.map(val, traces + [g[1] for g in guards]))
     res = allres[:len(traces)]
     for g, (p, ok, r, at) in zip(guards, allres[len(traces):]):
-        lines = [ln for ln, _ in lib.unexplained(r)]
+        lines = [ln for ln, cls in lib.unexplained(r) if g[3] is None or cls == g[3]]
         if g[2] not in lines:
             raise lib.ModelFailure("vacuity guard: Trace_Projectors accepted a corrupted trace (%s, line %d; reported %s)" % (g[0], g[2], lines[:5]))
         os.remove(p)
